@@ -285,8 +285,25 @@ class World(DuoWorld):
         ch = self.run.ch
         self.late_defines_left -= 1
         cls, uri = ch.pick(((UndefinedError, "com.example.late_defined"), (DefinedError, "com.example.redefined"),
-                            (UndefinedError, "com.example.late_defined_again")), "late-define")
+                            (UndefinedError, "com.example.late_defined_again"), (UndefinedError, "com.example.Not A Valid.URI"),
+                            (DefinedError, "com.example.Not A Valid.URI"), (None, "com.example.Also Not Valid")), "late-define")
         self.run.fault("late-define")
+        if " " in uri:
+            # a definition the library refuses (malformed URI): the application catches the error and carries on;
+            # the registries of both sessions stay as they were
+            who, cls = (self.caller, StrictError) if cls is None else (self.callee, cls)
+            self.run.log("app", "refused-define", cls.__name__, uri)
+            try:
+                who.session.define(cls, uri)
+            except Exception as e:  # noqa
+                self.run.probe("define-refused:%s" % type(e).__name__)
+            else:
+                self.run.probe("malformed-define-accepted")
+                if who is self.callee:
+                    self.callee_map[cls] = uri
+                else:
+                    self.caller_map[uri] = cls
+            return
         self.run.log("app", "callee.define", cls.__name__, uri)
         self.callee.session.define(cls, uri)
         self.callee_map[cls] = uri
